@@ -33,6 +33,7 @@ type pendingReq struct {
 }
 
 type refClient struct {
+	everHeld map[string]bool // resources that were in some resource set sent to this client
 	c        *wsClient
 	held     map[string]*refRes
 	direct   map[string]int
@@ -112,6 +113,18 @@ func (rc *refClient) addResources(rs *rpcResources) {
 	// A client keeps what it already holds: a resource delivered again while the client still
 	// retains it is ignored (the resource set is specified to contain only resources "previously
 	// not subscribed by the client"; RES clients skip cached ones).
+	if rc.everHeld == nil {
+		rc.everHeld = map[string]bool{}
+	}
+	for rid := range rs.Models {
+		rc.everHeld[rid] = true
+	}
+	for rid := range rs.Collections {
+		rc.everHeld[rid] = true
+	}
+	for rid := range rs.Errors {
+		rc.everHeld[rid] = true
+	}
 	keep := rc.reach(false)
 	skip := func(rid string) bool { return keep[rid] && rc.held[rid] != nil && rc.held[rid].kind != 'e' }
 	for rid, m := range rs.Models {
@@ -152,11 +165,12 @@ type monitors struct {
 	resetFor map[string]map[string]bool // tokenReset subject -> token ids named by the resets so far
 	// C06: (cid + " " + rid as the client spells it) -> id of the last service request issued before
 	// the trigger; the re-check is over when an access answer to a later request arrives
-	recheck  map[string]recheckState
-	curEvent string          // resource name of the event published in this step ("" otherwise)
-	pubStep  map[string]int  // resource name + "#" + sequence number of a custom event -> step of its publication
-	gone     map[string]bool // disconnected cids
-	reqOwner map[int]string
+	recheck   map[string]recheckState
+	httpEnded map[string]int  // cid of a temporary connection -> direct meta status that ended its request
+	curEvent  string          // resource name of the event published in this step ("" otherwise)
+	pubStep   map[string]int  // resource name + "#" + sequence number of a custom event -> step of its publication
+	gone      map[string]bool // disconnected cids
+	reqOwner  map[int]string
 	// C04-C06 bookkeeping: latest access verdict per (cid, resource name?query)
 	grants  map[string]*grantState
 	queryEv map[string]*queryEvState
@@ -409,6 +423,29 @@ func (m *monitors) onFrame(c *wsClient, f *cframe) {
 		if after {
 			w.addViolation("C06", "event-before-new-verdict", fmt.Sprintf("%s event for %s delivered to %s although it reached the gateway after a trigger whose access re-check is not answered yet", f.event, f.rid, c.name))
 		}
+	}
+	{
+		// whatever this frame carries in its resource set is handed over by it, whether or not the
+		// reference client goes on to apply the event
+		var hs rpcResources
+		if json.Unmarshal(f.data, &hs) == nil {
+			if rc.everHeld == nil {
+				rc.everHeld = map[string]bool{}
+			}
+			for rid := range hs.Models {
+				rc.everHeld[rid] = true
+			}
+			for rid := range hs.Collections {
+				rc.everHeld[rid] = true
+			}
+			for rid := range hs.Errors {
+				rc.everHeld[rid] = true
+			}
+		}
+	}
+	if !rc.everHeld[f.rid] {
+		// C03: no event for a resource before the response or event that first hands it over
+		w.addViolation("C03", "event-before-handover", fmt.Sprintf("%s event for %s on %s, a resource that was never handed to that client", f.event, f.rid, c.name))
 	}
 	if (r == nil || !rc.reachable()[f.rid]) && rc.lastGet[f.rid] {
 		// events queued while a get was loading are flushed to the client right after the get
@@ -680,6 +717,9 @@ func (m *monitors) onRequest(l mqLog) {
 			}
 		}
 		m.reqOwner[l.id] = *p.CID
+		if st, ended := m.httpEnded[*p.CID]; ended {
+			w.addViolation("C17", "request-after-direct-status", fmt.Sprintf("%s sent for %s after a service answered its HTTP request with meta status %d", w.absSubject(l.subject), w.cname(*p.CID), st))
+		}
 		if named, ok := m.resetFor[l.subject]; ok && kind == "auth" {
 			// C10: a token reset addresses only the connections whose current token id it names
 			if tid := m.tids[*p.CID]; tid == "" || !named[tid] {
@@ -711,6 +751,24 @@ func (m *monitors) onRequest(l mqLog) {
 }
 
 func (m *monitors) onAnswer(r *mockReq, label string, data []byte, err error) {
+	if i := strings.Index(label, "|meta="); i >= 0 {
+		if st, e := strconv.Atoi(label[i+6:]); e == nil && st >= 300 && st < 600 {
+			// C17: a direct status ends the HTTP request: no further service request for it
+			var p struct {
+				CID string `json:"cid"`
+			}
+			json.Unmarshal(r.payload, &p)
+			if m.httpEnded == nil {
+				m.httpEnded = map[string]int{}
+			}
+			m.httpEnded[p.CID] = st
+			for _, h := range m.w.https {
+				if h.conn == m.w.cname(p.CID) {
+					h.direct = true
+				}
+			}
+		}
+	}
 	if strings.HasPrefix(r.subject, "access.") {
 		var p struct {
 			CID   string `json:"cid"`
